@@ -100,6 +100,17 @@ fn base_histories(rng: &mut Rng, n: usize) -> Vec<History> {
     }
     v.push(freelist_reopen_history());
     v.push(boundary_sweep_history());
+    // the root directory as a multi-page tree (17 ten-byte names fill a 1 KiB leaf; 68 a 4 KiB one)
+    for (n, a, b) in [(20usize, 0usize, 17usize), (18, 0, 9), (40, 0, 34), (90, 0, 68), (90, 17, 90), (300, 0, 283)] {
+        v.push(shape::root_dir_history(1024, n, a, b));
+    }
+    // deep trees (key size relative to 1 KiB pages: five to eight levels there, two or three at 16 KiB) with
+    // cascading collapses: all but two keys deleted in one transaction; three quarters from the front
+    for idx in [3usize, 0] {
+        if let Some(h) = shape::deep_tree_history(1024, idx) {
+            v.push(h);
+        }
+    }
     v
 }
 
